@@ -508,6 +508,11 @@ void fp12_read_bin(fp12_t a, const uint8_t *bin, size_t len) {
 		fp2_zero(a[1][1]);
 		fp2_read_bin(a[1][2], bin + 6 * RLC_FP_BYTES, 2 * RLC_FP_BYTES);
 		fp12_back_cyc(a, a);
+		/* Only elements of the cyclotomic subgroup have a compressed form. */
+		if (!fp12_test_cyc(a)) {
+			RLC_THROW(ERR_NO_VALID);
+			return;
+		}
 	}
 	if (len == 12 * RLC_FP_BYTES) {
 		fp6_read_bin(a[0], bin, 6 * RLC_FP_BYTES);
@@ -669,6 +674,11 @@ void fp18_read_bin(fp18_t a, const uint8_t *bin, size_t len) {
 		fp3_zero(a[1][1]);
 		fp3_read_bin(a[1][2], bin + 9 * RLC_FP_BYTES, 3 * RLC_FP_BYTES);
 		fp18_back_cyc(a, a);
+		/* Only elements of the cyclotomic subgroup have a compressed form. */
+		if (!fp18_test_cyc(a)) {
+			RLC_THROW(ERR_NO_VALID);
+			return;
+		}
 	}
 	if (len == 18 * RLC_FP_BYTES) {
 		fp9_read_bin(a[0], bin, 9 * RLC_FP_BYTES);
@@ -771,6 +781,11 @@ void fp24_read_bin(fp24_t a, const uint8_t *bin, size_t len) {
 		fp4_read_bin(a[2][0], bin + 8 * RLC_FP_BYTES, 4 * RLC_FP_BYTES);
 		fp4_read_bin(a[2][1], bin + 12 * RLC_FP_BYTES, 4 * RLC_FP_BYTES);
 		fp24_back_cyc(a, a);
+		/* Only elements of the cyclotomic subgroup have a compressed form. */
+		if (!fp24_test_cyc(a)) {
+			RLC_THROW(ERR_NO_VALID);
+			return;
+		}
 	}
 	if (len == 24 * RLC_FP_BYTES) {
 		fp8_read_bin(a[0], bin, 8 * RLC_FP_BYTES);
@@ -871,6 +886,11 @@ void fp48_read_bin(fp48_t a, const uint8_t *bin, size_t len) {
 		fp8_zero(a[1][1]);
 		fp8_read_bin(a[1][2], bin + 24 * RLC_FP_BYTES, 8 * RLC_FP_BYTES);
 		fp48_back_cyc(a, a);
+		/* Only elements of the cyclotomic subgroup have a compressed form. */
+		if (!fp48_test_cyc(a)) {
+			RLC_THROW(ERR_NO_VALID);
+			return;
+		}
 	}
 	if (len == 48 * RLC_FP_BYTES) {
 		fp24_read_bin(a[0], bin, 24 * RLC_FP_BYTES);
@@ -973,6 +993,11 @@ void fp54_read_bin(fp54_t a, const uint8_t *bin, size_t len) {
 		fp9_read_bin(a[2][0], bin + 18 * RLC_FP_BYTES, 9 * RLC_FP_BYTES);
 		fp9_read_bin(a[2][1], bin + 27 * RLC_FP_BYTES, 9 * RLC_FP_BYTES);
 		fp54_back_cyc(a, a);
+		/* Only elements of the cyclotomic subgroup have a compressed form. */
+		if (!fp54_test_cyc(a)) {
+			RLC_THROW(ERR_NO_VALID);
+			return;
+		}
 	}
 	if (len == 54 * RLC_FP_BYTES) {
 		fp18_read_bin(a[0], bin, 18 * RLC_FP_BYTES);
